@@ -26,6 +26,12 @@ impl Entry {
             Entry::File { name, .. } | Entry::Dir { name, .. } => name,
         }
     }
+    pub fn renamed(self, new_name: &str) -> Entry {
+        match self {
+            Entry::File { content, .. } => Entry::File { name: new_name.to_string(), content },
+            Entry::Dir { children, .. } => Entry::Dir { name: new_name.to_string(), children },
+        }
+    }
     pub fn count(&self) -> usize {
         match self {
             Entry::File { .. } => 1,
@@ -79,15 +85,22 @@ pub fn all_orders(root: &Path, es: &[Entry]) -> Vec<HashMap<PathBuf, Vec<OsStrin
     }
     let mut ds = Vec::new();
     dirs(root.to_path_buf(), es, &mut ds);
-    if ds.len() > 12 {
-        // very deep trees: the identity and the fully reversed listing only
+    if ds.len() > 12 || ds.iter().any(|(_, names)| names.len() > 7) {
+        // very deep or very wide trees: the identity, the fully reversed listing, and two rotations (by one and by half)
         let mut fwd = HashMap::new();
         let mut rev = HashMap::new();
+        let mut rot1 = HashMap::new();
+        let mut roth = HashMap::new();
+        let wide = ds.iter().any(|(_, names)| names.len() > 7);
         for (path, names) in ds {
+            let n = names.len().max(1);
             fwd.insert(path.clone(), names.iter().map(|n| OsString::from(*n)).collect());
-            rev.insert(path, names.iter().rev().map(|n| OsString::from(*n)).collect());
+            rev.insert(path.clone(), names.iter().rev().map(|n| OsString::from(*n)).collect());
+            rot1.insert(path.clone(), (0..names.len()).map(|i| OsString::from(names[(i + 1) % n])).collect());
+            roth.insert(path, (0..names.len()).map(|i| OsString::from(names[(i + n / 2) % n])).collect());
         }
-        return vec![fwd, rev];
+        let huge = fwd.values().any(|v: &Vec<OsString>| v.len() > 300);
+        return if huge { vec![fwd, roth] } else if wide { vec![fwd, rev, rot1, roth] } else { vec![fwd, rev] };
     }
     let mut tables: Vec<HashMap<PathBuf, Vec<OsString>>> = vec![HashMap::new()];
     for (path, names) in ds {
@@ -406,6 +419,25 @@ pub fn c03(tier: Tier) -> i32 {
                 trees.push(vec![file("One.sol", one.as_bytes()), file("Two.sol", two.as_bytes()), file("Three.sol", three.as_bytes())]);
                 trees.push(vec![d("a", vec![file("T.sol", one.as_bytes())]), d("b", vec![file("T.sol", two.as_bytes())]), d("c", vec![file("T.sol", one.as_bytes())])]);
             }
+            // wide directories: 65, 257 and 1025 eligible files (and a few others between them), flat and with a sub-directory in the
+            // middle of the listing; names that differ only in how a number is written; two test files next to each other
+            for n in [65usize, 257, 1025] {
+                let mut wide: Vec<Entry> = Vec::new();
+                for k in 0..n {
+                    wide.push(file(&format!("F{:04}.sol", k), if k % 3 == 0 { pq } else if k % 3 == 1 { p } else { p2 }));
+                    if k % 97 == 5 {
+                        wide.push(file(&format!("note{}.txt", k), GARBAGE));
+                    }
+                    if k == n / 2 {
+                        wide.push(d("mid", vec![file("In.sol", pq), file("F0000.sol", p)]));
+                    }
+                }
+                trees.push(wide);
+            }
+            trees.push(vec![file("Vault1.sol", p), file("Vault01.sol", pq), file("Vault001.sol", p2), file("Token7.sol", pq), file("Token007.sol", p)]);
+            trees.push(vec![file("V18446744073709551616.sol", p), file("V18446744073709551617.sol", pq), file("V018446744073709551616.sol", p2)]);
+            trees.push(vec![file("A.t.sol", pq), file("B.t.sol", pq), file("C.sol", p), file("D.T.SOL", pq), file("E.t.sol", pq)]);
+            trees.push(vec![file("A.t.sol", pq), file("B.t.sol", pq)]);
             // the same construct at the same byte offset on different lines (a blank run against a line feed), side by side
             let same_off_a = "pragma solidity ^0.8.0; contract A {\n    uint256 private total; function f(uint256 a) public returns (uint256) { return a + 1; }\n}\n";
             let same_off_b = "pragma solidity ^0.8.0; contract A {     uint256 private total; function f(uint256 a) public returns (uint256) { return a + 1; }\n}\n";
@@ -451,7 +483,13 @@ pub fn c03(tier: Tier) -> i32 {
         let mut states = 0u64;
         let mut calls = 0u64;
         let mut outcomes = HashSet::new();
+        let wide_tree = tree.len() > 64;
+        let t_tree = std::time::Instant::now();
         for (sn, sel) in &sels {
+            // wide directories are about counting entries, not about patterns: one selection
+            if wide_tree && sn != "one" {
+                continue;
+            }
             let want = match per_file_union(tree, sel) {
                 Ok(w) => w,
                 Err(e) => {
@@ -492,6 +530,9 @@ pub fn c03(tier: Tier) -> i32 {
                     }),
                 }
             }
+        }
+        if t_tree.elapsed().as_secs_f64() > 2.0 {
+            eprintln!("[C03 phase] tree #{} ({} root entries, {}) took {:.1}s", ti, tree.len(), describe(tree).chars().take(60).collect::<String>(), t_tree.elapsed().as_secs_f64());
         }
         let _ = std::fs::remove_dir_all(&root);
         (vs, states, calls, outcomes)
@@ -769,6 +810,23 @@ pub fn c16(tier: Tier) -> i32 {
             trees.push(vec![d("a", vec![d("x", vec![file("Token.sol", p)])]), d("b", vec![d("x", vec![file("Token.sol", p), i.clone()])]), file("Copy.sol", p)]);
             trees.push(vec![file("One.sol", p), file("Two.sol", p), d("three", vec![file("Three.sol", p), i.clone()])]);
         }
+    }
+    // wide directories (65 / 257 / 1025 eligible files with other files between them) and test files next to each other
+    for n in [65usize, 257, 1025] {
+        let mut wide: Vec<Entry> = Vec::new();
+        for k in 0..n {
+            wide.push(file(&format!("F{:04}.sol", k), contents_elig[k % 2]));
+            if k % 13 == 5 {
+                wide.push(inelig[(k * 7) % inelig.len()].clone().renamed(&format!("{}-{}", k, inelig[(k * 7) % inelig.len()].name())));
+            }
+        }
+        trees.push(wide);
+    }
+    {
+        let pq = SRC_PQ.as_bytes();
+        trees.push(vec![file("A.t.sol", pq), file("B.t.sol", pq)]);
+        trees.push(vec![file("A.t.sol", pq), file("B.t.sol", pq), file("C.sol", SRC_P.as_bytes()), file("D.T.SOL", pq), file("E.t.sol", pq)]);
+        trees.push(vec![file("A.t.sol", pq), file("B.T.sol", GARBAGE), file("C.t.Sol", pq), file("Real.sol", pq)]);
     }
     // an eligible file 70 directories deep next to ineligible ones on the way down
     {
